@@ -46,6 +46,8 @@ def var_ref(rng, i, vinfo):
 
 def gen_flag(rng, nvars, vinfo, nparams):
     r = rng.random()
+    if r < 0.08:
+        return ["nonec"]  # the Python constant None as flag
     if r < 0.3:
         return ["bool", rng.random() < 0.5]
     return gen_expr(rng, nvars, vinfo, nparams, allow_const=False) if (nvars or nparams) else ["bool", rng.random() < 0.5]
@@ -243,6 +245,8 @@ def body(prog, F, S, L, recorder=None, override=None):
             return params[e[1]]
         if e[0] == "const":
             return Const(e[1], e[2])
+        if e[0] == "nonec":
+            return None
         return bool(e[1])
 
     def run(*params):
